@@ -35,6 +35,8 @@ def mk_event(ci, k, frac_ms=True, eid=None, salt=0):
     if (ci + 2 * k + salt) % 5 == 0:
         # values below 1e-4 in size: repr / str / csv write them in exponent notation (2.5e-05)
         lat, lon, depth = (2.5e-05, -5e-05, 1e-05)[(ci + k) % 3] * (1 + ci), lon, (1.25e-05, 5e-06)[k % 2]
+    if (ci + 3 * k + salt) % 7 == 0:
+        lon = (180.0, 181.25, 359.5, -180.0)[(ci + k) % 4]      # written as given, read as given (no wrapping of longitudes)
     return (eid or "c%de%d" % (ci, k), t, lat, lon, depth, 4.0 + ci / 10.0 + k / 100.0)
 
 
